@@ -59,11 +59,15 @@ KERNELS = [
     # the search's visited table: one bit per candidate in a byte array (`>>`, `<<`, `&`, `|` on non-negative ints)
     ("utils.py", "has_been_visited", dict(table="arrI", candidate="Int"), "Int"),
     ("utils.py", "mark_visited", dict(table="arrI", candidate="Int"), "Unit"),
+    # the pair generators of NN-descent: `dist` is a function parameter applied to rows of `data` (handed over by value);
+    # `top` is not a Python parameter: it stands for `np.inf` (the distance of the placeholder every update list starts with)
+    ("pynndescent_.py", "generate_leaf_updates", dict(top="P", leaf_block="arr2I", dist_thresholds="arrP", data="arr2P", dist="distFn"), "updLL"),
+    ("pynndescent_.py", "generate_graph_updates", dict(top="P", new_candidate_block="arr2I", old_candidate_block="arr2I", dist_thresholds="arrP", data="arr2P", dist="distFn"), "updLL"),
 ]
 
 LEAN_TY = {"P": "P", "Int": "Int", "arrP": "Array P", "arrI": "Array Int", "Unit": "Unit", "Bool": "Bool",
            "arr2P": "Array (Array P)", "arr2I": "Array (Array Int)",
-           "setI": "List Int", "setLI": "Array (List Int)",
+           "setI": "List Int", "setLI": "Array (List Int)", "distFn": "(Array P → Array P → P)",
            "upd": "(Int × Int × P)", "updL": "Array (Int × Int × P)", "updLL": "Array (Array (Int × Int × P))"}
 ELEM = {"arrP": "P", "arrI": "Int", "arr2P": "arrP", "arr2I": "arrI", "updLL": "updL", "updL": "upd", "setLI": "setI"}
 MUTATING = {}     # translated kernel name -> Fn (for calls from later kernels)
@@ -126,6 +130,9 @@ def stored_names(stmts):
                 # `lst.append(v)` mutates `lst` (translated as `let lst := lst.push v`): it is a store, so the list is
                 # loop-carried; without this a list appended to inside a loop came back unchanged after the loop
                 out.append(n.func.value.id)
+            elif isinstance(n, ast.Call) and isinstance(n.func, ast.Attribute) and n.func.attr == "append" and isinstance(n.func.value, ast.Subscript) \
+                    and isinstance(n.func.value.value, ast.Name):
+                out.append(n.func.value.value.id)      # `L[r].append(x)` stores into the list of lists `L`
             elif isinstance(n, ast.Call) and isinstance(n.func, ast.Attribute) and n.func.attr == "add" and isinstance(n.func.value, ast.Subscript) \
                     and isinstance(n.func.value.value, ast.Name):
                 out.append(n.func.value.value.id)      # `S[r].add(x)` stores into the list of sets `S`
@@ -219,8 +226,10 @@ def preprocess(fdef, ptypes, flat):
 class Fn:
     def __init__(self, fdef, ptypes, ret):
         got = [a.arg for a in fdef.args.args]
-        if got != list(ptypes):
+        if got != [p for p in ptypes if p != "top"] and got != list(ptypes):
             raise Unsupported("parameter list changed: %s" % got)
+        if "top" in ptypes and "top" not in got and any(isinstance(n, ast.Name) and n.id == "top" for n in ast.walk(fdef)):
+            raise Unsupported("identifier 'top' is reserved in the translation of this kernel (it stands for np.inf)")
         check_identifiers(fdef, {k[1] for k in KERNELS})
         flat = {}
         for prm, t in ptypes.items():
@@ -270,6 +279,18 @@ class Fn:
             if t in ELEM and not isinstance(e.slice, ast.Tuple): return ELEM[t]
         if isinstance(e, ast.Call) and isinstance(e.func, ast.Name) and e.func.id == "len" and len(e.args) == 1:
             return "Int"
+        if isinstance(e, ast.Call) and isinstance(e.func, ast.Name) and e.func.id == "int" and len(e.args) == 1 and not e.keywords \
+                and self.ty(e.args[0], env) == "Int":
+            return "Int"
+        if isinstance(e, ast.Call) and isinstance(e.func, ast.Name) and env.get(e.func.id) == "distFn" and len(e.args) == 2 and not e.keywords \
+                and all(self.ty(a, env) == "arrP" for a in e.args):
+            return "P"
+        if isinstance(e, ast.Attribute) and ast.unparse(e) == "np.inf" and env.get("top") == "P":
+            return "P"
+        if isinstance(e, ast.Tuple) and len(e.elts) == 3 and [self.ty(x, env) for x in e.elts] == ["Int", "Int", "P"]:
+            return "upd"
+        if isinstance(e, ast.ListComp) and self.placeholder_lists(e, env):
+            return "updLL"
         if isinstance(e, ast.Call) and isinstance(e.func, ast.Name) and e.func.id in MUTATING:
             r = MUTATING[e.func.id].ret
             if isinstance(r, str) and r != "Unit": return r
@@ -288,6 +309,19 @@ class Fn:
             if d in ("numba.types.float32", "numba.types.float64"): return "arrP"
         raise Unsupported("cannot type " + ast.unparse(e))
 
+    def placeholder_lists(self, e, env):
+        """`[[t] for v in range(E)]` with `t` a triple that does not mention `v`: (E, t), else None"""
+        if len(e.generators) != 1: return None
+        g = e.generators[0]
+        if g.ifs or g.is_async or not isinstance(g.target, ast.Name) or not (isinstance(g.iter, ast.Call) and isinstance(g.iter.func, ast.Name)
+                and g.iter.func.id == "range" and len(g.iter.args) == 1 and not g.iter.keywords):
+            return None
+        if not (isinstance(e.elt, ast.List) and len(e.elt.elts) == 1) or g.target.id in names_loaded(e.elt):
+            return None
+        if self.ty(g.iter.args[0], env) != "Int" or self.ty(e.elt.elts[0], env) != "upd":
+            return None
+        return g.iter.args[0], e.elt.elts[0]
+
     def ex(self, e, env):
         """Lean term (inside a do block, loads are nested actions)"""
         if isinstance(e, ast.Constant):
@@ -296,6 +330,17 @@ class Fn:
             if isinstance(e.value, float) and e.value == 0.0: return "(0 : P)"
         if isinstance(e, ast.Name):
             self.ty(e, env); return e.id
+        if isinstance(e, ast.Call) and isinstance(e.func, ast.Name) and e.func.id == "int" and self.ty(e, env) == "Int":
+            return self.ex(e.args[0], env)          # int(x) of an integer
+        if isinstance(e, ast.Call) and isinstance(e.func, ast.Name) and env.get(e.func.id) == "distFn" and self.ty(e, env) == "P":
+            return "(%s %s %s)" % (e.func.id, self.ex(e.args[0], env), self.ex(e.args[1], env))
+        if isinstance(e, ast.Attribute) and self.ty(e, env) == "P":
+            return "top"
+        if isinstance(e, ast.Tuple) and self.ty(e, env) == "upd":
+            return "(%s, %s, %s)" % tuple(self.ex(x, env) for x in e.elts)
+        if isinstance(e, ast.ListComp) and self.ty(e, env) == "updLL":
+            cnt, tup = self.placeholder_lists(e, env)
+            return "(Array.replicate (%s).toNat #[%s] : Array (Array (Int × Int × P)))" % (self.ex(cnt, env), self.ex(tup, env))
         if isinstance(e, ast.Subscript) and isinstance(e.value, ast.Attribute) and e.value.attr == "shape" and isinstance(e.value.value, ast.Name) \
                 and isinstance(e.slice, ast.Constant) and e.slice.value == 1 and self.ty(e.value.value, env) in ("arr2P", "arr2I"):
             return "(ncols %s : Int)" % e.value.value.id
@@ -400,6 +445,14 @@ class Fn:
             if not at.startswith("arr") or self.ty(s.value.args[0], env) != ("P" if at == "arrP" else "Int"):
                 raise Unsupported("append " + ast.unparse(s))
             return [ind + "let %s := %s.push %s" % (a, a, self.ex(s.value.args[0], env))] + self.block(rest, env, ctx, ind)
+        if isinstance(s, ast.Expr) and isinstance(s.value, ast.Call) and isinstance(s.value.func, ast.Attribute) and s.value.func.attr == "append" \
+                and isinstance(s.value.func.value, ast.Subscript) and isinstance(s.value.func.value.value, ast.Name) \
+                and not isinstance(s.value.func.value.slice, (ast.Slice, ast.Tuple)) and len(s.value.args) == 1 and not s.value.keywords:
+            tgt = s.value.func.value
+            if self.ty(tgt.value, env) != "updLL" or self.ty(s.value.args[0], env) != "upd" or self.ty(tgt.slice, env) != "Int":
+                raise Unsupported("append " + ast.unparse(s))
+            L, r, x = tgt.value.id, self.ex(tgt.slice, env), self.ex(s.value.args[0], env)
+            return [ind + "let %s ← wr %s %s ((← rd %s %s).push %s)" % (L, L, r, L, r, x)] + self.block(rest, env, ctx, ind)
         if isinstance(s, ast.Expr) and isinstance(s.value, ast.Call) and isinstance(s.value.func, ast.Attribute) and s.value.func.attr == "add" \
                 and isinstance(s.value.func.value, ast.Subscript) and isinstance(s.value.func.value.value, ast.Name) \
                 and not isinstance(s.value.func.value.slice, (ast.Slice, ast.Tuple)) and len(s.value.args) == 1 and not s.value.keywords:
@@ -677,7 +730,8 @@ STUB_MUT = {"simple_heap_push": ["priorities", "indices"], "checked_heap_push": 
             "apply_graph_updates_low_memory": ["current_graph_0", "current_graph_1", "current_graph_2"],
             "apply_graph_updates_high_memory": ["current_graph_0", "current_graph_1", "current_graph_2", "in_graph"],
             "init_from_neighbor_graph": ["heap_0", "heap_1", "heap_2"],
-            "has_been_visited": [], "mark_visited": ["table"]}
+            "has_been_visited": [], "mark_visited": ["table"],
+            "generate_leaf_updates": [], "generate_graph_updates": []}
 
 
 def find_def(tree, name):
